@@ -4,6 +4,7 @@ Property theorems only; the model is in `Model/C05.lean`.
 -/
 import NotationModel.Model.C05
 import NotationModel.Generated.SrcC05
+import NotationModel.Generated.SrcLevels
 set_option linter.unusedSimpArgs false
 set_option linter.unusedVariables false
 
@@ -228,19 +229,76 @@ example : revocationFinal [.unknown, .revoked, .ok] = (.revoked, some 1) := by d
 example : revocationFinal [.nonRevokable, .ok] = (.ok, none) := by decide
 example : revocationFinal [.ok, .unknown, .unknown] = (.unknown, some 1) := by decide
 
-example : Holds { vec := [.unknown, .revoked], chainLen := 2, scheme := .x509, iface := .client, action := .enforce,
-                  validatorError := false, methods := [], serverErrors := [], errorWithResults := false, deprecatedCtor := false, identityPlugin := false, bothSupplied := false, variant := "" }
-    { outcome := .unknown, named := some 0, accepted := false, calls := 1, chainLen := some 2,
+/-- a plain scenario to vary in the examples: strict level, nothing overridden, context-aware validator -/
+def sample : Input :=
+  { vec := [.ok], chainLen := 1, scheme := .x509, iface := .validator, level := .strict, revOverride := none,
+    otherOverrides := [], policyForm := "code", validatorError := false, errorKind := "", callerCtx := "background",
+    methods := [], serverErrors := [], errorWithResults := false, deprecatedCtor := false, identityPlugin := false,
+    bothSupplied := false, variant := "" }
+
+example : Holds { sample with vec := [.unknown, .revoked], chainLen := 2, iface := .client }
+    { outcome := .unknown, named := some 0, accepted := false, resultAction := some .enforce, calls := 1, chainLen := some 2,
       signingTime := some false, usedIface := some .client } = false := by decide
 
 /-- a validator answering with one result for a chain of three never passes, even if that result is OK -/
-example : (run { vec := [.ok], chainLen := 3, scheme := .x509, iface := .validator, action := .enforce,
-                 validatorError := false, methods := [], serverErrors := [], errorWithResults := false, deprecatedCtor := false, identityPlugin := false, bothSupplied := false, variant := "" }).outcome = .unknown := by
+example : (run { sample with vec := [.ok], chainLen := 3 }).outcome = .unknown := by
   decide
 
-/-- what else is true of the signature is not an input of the revocation decision -/
-theorem variant_irrelevant (i : Input) (v : String) (b : Bool) : run { i with variant := v, bothSupplied := b } = run i := by
-  simp [run]
+/-! ### the action of the revocation type: named level and override -/
+
+/-- without an override the named level decides -/
+theorem effective_no_override (l : Level) : effective l none = l.base := by
+  cases l <;> rfl
+
+/-- **override_decides**: an override for the revocation type replaces what the named level says - it
+relaxes a strict level and it TIGHTENS a permissive or audit one all the same -/
+theorem override_decides (l : Level) (a : Action) (h : l ≠ .skip) : effective l (some a) = a := by
+  cases l <;> simp_all [effective]
+
+/-- **tightening_override_enforces**: under `permissive` or `audit` (or any level that can be customised)
+with the override `revocation: enforce`, the validator is consulted and everything but a passing
+revocation validation is rejected: a revoked or unknown chain and a validator error are not merely logged -/
+theorem tightening_override_enforces (i : Input) (hl : i.level ≠ .skip) (ho : i.revOverride = some .enforce) :
+    (run i).calls = 1 ∧ (run i).resultAction = some .enforce ∧
+    ((run i).accepted = true ↔ (run i).outcome = .pass) := by
+  have ha : i.action = .enforce := by
+    unfold Input.action; rw [ho]; exact override_decides _ _ hl
+  unfold run
+  simp only [ha]
+  cases i.validatorError <;> simp
+  rcases revocationFinalFor i.chainLen i.vec with ⟨f, n⟩
+  cases f <;> simp
+
+/-- the converse direction: an override that relaxes revocation to `log` never rejects, whatever the base level -/
+theorem relaxing_override_logs (i : Input) (hl : i.level ≠ .skip) (ho : i.revOverride = some .log) :
+    (run i).calls = 1 ∧ (run i).resultAction = some .log ∧ (run i).accepted = true := by
+  have ha : i.action = .log := by
+    unfold Input.action; rw [ho]; exact override_decides _ _ hl
+  unfold run
+  simp only [ha]
+  cases i.validatorError <;> simp
+  rcases revocationFinalFor i.chainLen i.vec with ⟨f, n⟩
+  cases f <;> simp
+
+/-- non-vacuity: `{"level":"permissive","override":{"revocation":"enforce"}}` with a revoked intermediate
+is rejected; the same chain under plain `permissive` is only logged; a wrong observation (accepted under the
+tightened level) does not satisfy `Holds` -/
+example : (run { sample with level := .permissive, revOverride := some .enforce, vec := [.ok, .revoked], chainLen := 2 }).accepted = false := by decide
+example : (run { sample with level := .permissive, vec := [.ok, .revoked], chainLen := 2 }).accepted = true := by decide
+example : Holds { sample with level := .audit, revOverride := some .enforce, vec := [.unknown], chainLen := 1 }
+    { outcome := .unknown, named := some 0, accepted := true, resultAction := some .log, calls := 1, chainLen := some 1,
+      signingTime := some false, usedIface := some .validator } = false := by decide
+/-- non-vacuity: a validator error that the implementation let pass does not satisfy `Holds`, whatever its kind -/
+example : Holds { sample with validatorError := true, errorKind := "wrapDeadline", callerCtx := "live" }
+    { outcome := .pass, named := none, accepted := true, resultAction := some .enforce, calls := 1, chainLen := some 1,
+      signingTime := some false, usedIface := some .validator } = false := by decide
+
+/-- what else is true of the signature, of the policy statement (overrides of other types, how the policy
+was written), of the validator's error (its kind: plain, wrapping a context or deadline error, typed, empty
+message) and of the caller's context is not an input of the revocation decision -/
+theorem variant_irrelevant (i : Input) (v : String) (b : Bool) (oo : List String) (pf ek cc : String) :
+    run { i with variant := v, bothSupplied := b, otherOverrides := oo, policyForm := pf, errorKind := ek, callerCtx := cc } = run i := by
+  simp [run, Input.action]
 
 /-! ### tie to the translated source -/
 
@@ -325,6 +383,52 @@ example : verifier.revocationFinalResult
     [{ Result := .ResultUnknown, ServerResults := [], RevocationMethod := .RevocationMethodUnknown },
      { Result := .ResultRevoked, ServerResults := [], RevocationMethod := .RevocationMethodCRL }]
     [{ Subject := ⟨"leaf"⟩ }, { Subject := ⟨"root"⟩ }] = (.ResultRevoked, "root") := by decide
+
+/-! #### the action of the revocation type -/
+section Levels
+open NotationModel.Src.trustpolicy
+
+def levelName : Level → String
+  | .strict => "strict" | .permissive => "permissive" | .audit => "audit" | .skip => "skip"
+def actionName : Action → String
+  | .enforce => "enforce" | .log => "log" | .skip => "skip"
+
+/-- the trust policy statement of the model's input as the source's type; overrides of other types may
+come before and after the one for revocation (Go iterates a map in any order) -/
+def statement (l : Level) (ov : Option Action) (before after : List (String × String)) : SignatureVerification :=
+  { VerificationLevel := levelName l,
+    Override := before ++ (match ov with | none => [] | some a => [("revocation", actionName a)]) ++ after }
+
+/-- what the level returned by the source says about revocation -/
+def revocationOf (r : Option VerificationLevel × Option GoLite.Err) : Option String :=
+  match r with
+  | (some lv, none) => GoLite.Map.get? lv.Enforcement TypeRevocation
+  | _ => none
+
+/-- overrides of other types a statement may carry next to the one for revocation -/
+def companions : List (List (String × String)) :=
+  [[], [("expiry", "log")], [("expiry", "enforce")], [("authenticity", "enforce")], [("authenticity", "log")],
+   [("authenticTimestamp", "enforce")], [("authenticTimestamp", "log"), ("expiry", "enforce")]]
+
+/-- TIE (translated source): `SignatureVerification.GetVerificationLevel`, translated from
+verifier/trustpolicy/trustpolicy.go on every run (`Generated/SrcLevels.lean`, with the level tables), says
+about the revocation type exactly what the model's `effective` says - for every named level that can be
+customised and every override of revocation (none, enforce, log, skip: relaxing AND tightening), alone or
+next to overrides of other types placed before and after it. (The general statement for arbitrary override
+maps is C02's `source_GetVerificationLevel_refines_model`; this one pins the reading C05 depends on.) -/
+theorem source_GetVerificationLevel_revocation (l : Level) (ov : Option Action) (hl : l ≠ .skip) :
+    (companions.all fun b => companions.all fun a =>
+      revocationOf (GetVerificationLevel (statement l ov b a)) == some (actionName (effective l ov))) = true := by
+  cases l <;> first | exact absurd rfl hl | (cases ov with
+    | none => decide
+    | some a => cases a <;> decide)
+
+example : revocationOf (GetVerificationLevel (statement .skip none [] [])) = some "skip" := by decide
+
+/-- non-vacuity: the user's statement of seeded change C05-13 -/
+example : revocationOf (GetVerificationLevel { VerificationLevel := "permissive", Override := [("revocation", "enforce")] }) = some "enforce" := by decide
+
+end Levels
 
 end Tie
 
